@@ -58,8 +58,33 @@ def eval_pcases(ctx, cases, tag, shard=40):
 
     def ev(ix_sh):
         ix, sh_ = ix_sh
-        out = ctx.coq_eval("%s_%d" % (tag, ix), pcase_v(sh_), timeout=1500)
-        return Ctx.parse_nat_list(out, "ST")
+        try:
+            out = ctx.coq_eval("%s_%d" % (tag, ix), pcase_v(sh_), timeout=1500, mem_kb=12000000)
+            return Ctx.parse_nat_list(out, "ST")
+        except Exception as ex:  # noqa: BLE001
+            if not any(m in str(ex) for m in ("Out of memory", "timed out", "Stack overflow", "Cannot allocate", "memory")):
+                raise
+        # an observed stream that decodes to absurd sizes (a count read from the wrong place) exhausts the evaluator: find the
+        # case and the flow, and give it the status "does not decode to the values written"
+        res = []
+        for k, (schema, steps, ws, body, obs) in enumerate(sh_):
+            st = 0
+            try:
+                out = ctx.coq_eval("%s_%d_%d" % (tag, ix, k), pcase_v([(schema, steps, ws, body, obs)]), timeout=120, mem_kb=3000000)
+                st = Ctx.parse_nat_list(out, "ST")[0]
+            except Exception:  # noqa: BLE001
+                st = 3
+                for j, o in enumerate(obs):
+                    try:
+                        out = ctx.coq_eval("%s_%d_%d_%d" % (tag, ix, k, j), pcase_v([(schema, steps, ws, body, [o])]), timeout=120, mem_kb=3000000)
+                        if Ctx.parse_nat_list(out, "ST")[0] != 0:
+                            st = 3 + j
+                            break
+                    except Exception:  # noqa: BLE001
+                        st = 3 + j
+                        break
+            res.append(st)
+        return res
     with ThreadPoolExecutor(max_workers=10) as ex:
         res = list(ex.map(ev, enumerate(shards)))
     return [x for r in res for x in r]
